@@ -30,6 +30,9 @@ type Violation struct {
 	Case     json.RawMessage `json:"case"` // enough to re-run the case: {"gen":..., "index":..., ...}
 	Detail   string          `json:"detail,omitempty"`
 	Exe      string          `json:"exe,omitempty"` // harness executable the case must be re-run with ("" = this one)
+	// Confirmed: the worker already re-executed the recorded schedule twice with
+	// identical observations (schedule-exploration checks); no isolated re-run needed
+	Confirmed bool `json:"confirmed,omitempty"`
 }
 
 // Counters is what a worker reports.
